@@ -250,6 +250,9 @@ class ContainerMixin:
             raise Unsupported("comprehension with a mapping element")
         outs = []
         for q, src in self.ev(g.iter, p, R):
+            if src.tag in ("gen", "pseq"):  # the yielded sequence of a contracted generator
+                outs.append((q, self.filter_list(q, src, g.target.id, g.ifs, R, e.lineno)))
+                continue
             if src.tag != "lref":
                 raise Unsupported(f"comprehension over {src.tag}")
             self.oblige(q, f"L{e.lineno}/iterate-None", src.z != L.LNONE, kind="safety")
@@ -260,7 +263,12 @@ class ContainerMixin:
     def filter_list(self, p: Path, src: SV, var: str, conds: list, R, line) -> SV:
         h = p.heap
         s = src.z
-        n = h.llen(s)
+        if src.tag == "lref":
+            n = h.llen(s)
+            item = lambda k: h.litem(s, k)  # noqa: E731
+        else:
+            n = L.Len(s)
+            item = lambda k: L.At(s, k)  # noqa: E731
 
         def phi(x):
             q = p.fork()
@@ -298,9 +306,9 @@ class ContainerMixin:
             ForAll([l], Implies(l != res, h2.llen(l) == h.llen(l)), patterns=[h2.llen(l)]),
             ForAll([l, i], Implies(l != res, h2.litem(l, i) == h.litem(l, i)), patterns=[h2.litem(l, i)]),
             h2.llen(res) >= 0, h2.llen(res) <= n,
-            ForAll([i], Implies(And(0 <= i, i < h2.llen(res)), And(0 <= emb(i), emb(i) < n, h2.litem(res, i) == h.litem(s, emb(i)), phi(h.litem(s, emb(i))), inv(emb(i)) == i)), patterns=[h2.litem(res, i), emb(i)]),
+            ForAll([i], Implies(And(0 <= i, i < h2.llen(res)), And(0 <= emb(i), emb(i) < n, h2.litem(res, i) == item(emb(i)), phi(item(emb(i))), inv(emb(i)) == i)), patterns=[h2.litem(res, i), emb(i)]),
             ForAll([i, j], Implies(And(0 <= i, i < j, j < h2.llen(res)), emb(i) < emb(j)), patterns=[z3.MultiPattern(emb(i), emb(j))]),
         )
-        p.assume(ForAll([j], Implies(And(0 <= j, j < n, phi(h.litem(s, j))), And(0 <= inv(j), inv(j) < h2.llen(res), emb(inv(j)) == j, h2.litem(res, inv(j)) == h.litem(s, j))), patterns=[h.litem(s, j), inv(j)]))
+        p.assume(ForAll([j], Implies(And(0 <= j, j < n, phi(item(j))), And(0 <= inv(j), inv(j) < h2.llen(res), emb(inv(j)) == j, h2.litem(res, inv(j)) == item(j))), patterns=[item(j), inv(j)]))
         p.ghost.setdefault("filters", []).append((res, s, emb, inv))
         return SV("lref", res, extra={"filter_of": s, "emb": emb, "inv": inv})
